@@ -111,7 +111,7 @@ def split_class(groups):
     of the second group"""
     def pipes(g):
         return {n.split("-")[0] for n in g}
-    if all(len(pipes(g)) == 1 for g in groups) and len({tuple(pipes(g)) for g in groups}) == 2 and len(groups) == 2:
+    if all(len(pipes(g)) == 1 for g in groups[:2]) and pipes(groups[0]) != pipes(groups[1]):
         return "legacy-vs-venom"
     return groups[1][0]
 
@@ -123,6 +123,7 @@ def part_generated(ctx, cfgs):
     obs = D.observe_all(items, cfgs, procs=3)
     n_cmp = 0
     reported = 0
+    gen_keys = set()
     crashes = {}
     for i, it in enumerate(items):
         per = {}
@@ -143,16 +144,36 @@ def part_generated(ctx, cfgs):
         if len(groups) > 1 and reported < 3:
             reported += 1
             a, bname = groups[0][0], groups[1][0]
-            ja = [c.name for c in cfgs].index(a)
-            jb = [c.name for c in cfgs].index(bname)
+            names = [c.name for c in cfgs]
+            ja, jb = names.index(a), names.index(bname)
             da = H.compare(it["prog"], it["calls"], it["model"], obs[(i, ja)][1])
             db = H.compare(it["prog"], it["calls"], it["model"], obs[(i, jb)][1])
+            prog, calls = it["prog"], it["calls"]
+            key = f"C02:gen:{split_class(groups)}"
+            shapes = []
+            # the reference semantics says which side is wrong: shrink against it and classify the shape (same keys as C01)
+            wrong = (cfgs[jb], db) if db is not None else ((cfgs[ja], da) if da is not None else None)
+            if wrong is not None:
+                try:
+                    from vlib.c01_shrink import shrink
+                    from checks.c01 import order_tags
+                    sp, sc, sd = shrink(prog, calls, wrong[0], wrong[1]["what"], budget_s=45 if ctx.tier == "quick" else 120)
+                    if sd is not None:
+                        prog, calls = sp, sc
+                        shapes = sorted(order_tags(sp))
+                        if len(shapes) == 1:
+                            key = f"C02:gen:{'venom' if wrong[0].venom else 'legacy'}:{shapes[0]}"
+                except Exception as e:
+                    ctx.log(f"shrink failed: {type(e).__name__}: {e}")
+            if key in gen_keys:
+                continue
+            gen_keys.add(key)
             ctx.violation("failing-input", f"configurations disagree on a generated program: {groups[0][:3]} vs {groups[1][:3]}",
-                          {"source": it["prog"].vy(), "groups": groups,
-                           "calls": [{"function": it["prog"].exts[c.fidx].abi_sig(), "calldata": H.calldata(it["prog"].exts[c.fidx], c).hex(),
-                                      "sender": c.sender, "value": c.value} for c in it["calls"]],
+                          {"source": prog.vy(prune=True), "groups": groups, "shapes": shapes,
+                           "calls": [{"function": prog.exts[c.fidx].abi_sig(), "calldata": H.calldata(prog.exts[c.fidx], c).hex(),
+                                      "sender": c.sender, "value": c.value} for c in calls],
                            "vs_source_semantics": {a: da, bname: db}},
-                          key=f"C02:gen:{split_class(groups)}")
+                          key=key)
     for exc, lst in crashes.items():
         i, cfg, msg = lst[0]
         prog = items[i]["prog"]
